@@ -8,6 +8,24 @@ TEXT = {
         "note": "num-bigint is the trusted oracle; operands are sampled except on tiny fields; asm feature and padded limb counts are out of scope of this check (see DESIGN §7).",
         "technique": REF + " (num-bigint oracle on raw Montgomery limbs, panic capture)",
     },
+    "C02": {
+        "text": "All 27 shipped towers (Fp2, Fp3, Fp4, both Fp6 constructions, Fp12) and four toy towers are executed on elements from structural classes (zero, one, base-field and subfield elements, single non-zero coordinate at every position, all coordinates p-1, uniform) and every result is compared coordinate-wise with a schoolbook model of F_p[X]/(X^k - beta) over num-bigint: add/sub/mul/square/inverse/div, frobenius_map(k) for k up to 2*degree+1 against x^(p^k) (linear map built from model exponentiation), norm, multiplication by base-field elements, all sparse multiplications (mul_by_034/014/01/1/fp/fp2) against full multiplication by the embedded sparse element, sum_of_products, and cyclotomic square/inverse/exp against the generic operations on elements forced into the cyclotomic subgroup by the oracle. Toy towers (7^2, 17^2, 7^3, 13^3 elements) enumerate all ordered pairs.",
+        "design_ref": "DESIGN.md §4 C02",
+        "note": "trusted: num-bigint and the 120-line schoolbook tower model; prime-field conversions (C01). Sampled except toy towers.",
+        "technique": REF + " (schoolbook tower model over num-bigint)",
+    },
+    "C06": {
+        "text": "Every shipped pairing engine - BLS12 with M- and D-twist, BN, BW6 x2, MNT4 x2, MNT6 x2, test-curves BLS12-381, plus cp6_782's own engine - is run on generator, random-subgroup and identity points with scalars from {0,1,2,r-1,uniform}. Bilinearity, additivity in both arguments, non-degeneracy, e(.,0)=e(0,.)=1, output^r=1, prepared versus unprepared across nine input forms, and multi-pairings of lengths 0,1,2,3,4,5,8,9 with identity entries at every position are checked as target-group equalities whose right-hand sides come from different code than the left (Field::pow and a harness square-and-multiply with integer exponents from num-bigint, field mul for products, oracle-side 1 for identity arguments; no golden values). PairingOutput group operations and Valid/serialization are compared with target-field operations. Required observation classes (each engine and twist type, identity in G1/G2/both, a*b >= r, chunking remainder, identity inside a multi-pairing) make an empty run inconclusive.",
+        "design_ref": "DESIGN.md §4 C06",
+        "note": "relations only (no golden pairing values): a defect that keeps every checked relation intact (e.g. a consistent change of the pairing by an automorphism) is not observable; inputs sampled.",
+        "technique": REF + " (algebraic relations with independently computed right-hand sides)",
+    },
+    "C11": {
+        "text": "sqrt and legendre are executed for all 204 prime-field configurations (tiny ones exhaustively) and for every shipped extension with a square-root algorithm (6 Fp2, 2 Fp4, 6 Fp3, 5 Fp6 2-over-3) plus four toy towers exhaustively. Elements: 0, 1, -1, generator^odd, squares, manufactured non-residues, base-field and subfield elements by residuosity, and elements of exact order 2^j for every j up to the two-adicity (Tonelli-Shanks worst cases). Oracle: Euler criterion by num-bigint modpow (towers: quadratic character of the norm chain, itself cross-checked against x^((q-1)/2) in the schoolbook model) and squaring of the returned root in the model; Some/None must match residuosity exactly and sqrt(0)=0.",
+        "design_ref": "DESIGN.md §4 C11",
+        "note": "trusted: num-bigint, the schoolbook tower model; sampled except tiny fields/toy towers.",
+        "technique": REF + " (Euler-criterion oracle, root squared in the model)",
+    },
     "C15": {
         "text": "Every BigInt<N> operation (N=1..13) is executed on edge-biased and uniform operands and compared with num-bigint, including carry/borrow flags, all shift classes, both endiannesses, parsing/printing and the three signed-digit recodings (reconstruction + digit constraints); recodings are exhaustive over 0..2^16 and the mirrored top-of-range values. Held-on-observed-executions, with required observation classes (carry out of the top limb etc.) that make an empty run inconclusive.",
         "design_ref": "DESIGN.md §4 C15",
